@@ -466,3 +466,29 @@ func spun(c interface {
 type drive_ReqSpec = drive.ReqSpec
 
 func sortStrings(s []string) { sort.Strings(s) }
+
+// normEmptyMsgs additionally clears singular message fields that are present but empty: a
+// REST body field cannot express "absent" other than by an empty value, so presence of an
+// empty sub-message is not judged on REST legs.
+func normEmptyMsgs(m proto.Message) proto.Message {
+	if m == nil {
+		return nil
+	}
+	c := normNullValues(m)
+	var walk func(m protoreflect.Message)
+	walk = func(m protoreflect.Message) {
+		m.Range(func(fd protoreflect.FieldDescriptor, v protoreflect.Value) bool {
+			if fd.Message() != nil && !fd.IsList() && !fd.IsMap() {
+				walk(v.Message())
+				empty := true
+				v.Message().Range(func(protoreflect.FieldDescriptor, protoreflect.Value) bool { empty = false; return false })
+				if empty && len(v.Message().GetUnknown()) == 0 {
+					m.Clear(fd)
+				}
+			}
+			return true
+		})
+	}
+	walk(c.ProtoReflect())
+	return c
+}
